@@ -68,6 +68,7 @@ def reader_roles(ctx, body):
         if sh is not None:
             roles[sh] = "shift"
     # enc: value derived from the reverse table
+    cands = []
     for l in range(len(body.locals)):
         if body.var_names.get(l) is None:
             continue
@@ -76,7 +77,11 @@ def reader_roles(ctx, body):
             if isinstance(x, Index):
                 base = strip_casts(x.x)
                 if isinstance(base, Const) and base.c.get("uneval") == "vlq::B64":
-                    roles[l] = "enc"
+                    cands.append(l)
+    # the digit as the arithmetic sees it: the widened (i64) value when the table entry is also bound on its own
+    wide = [l for l in cands if body.local_ty(l) == "i64"]
+    for l in (wide or cands)[:1] if len(wide or cands) == 1 else (wide or cands):
+        roles[l] = "enc"
     return roles, push
 
 
@@ -93,13 +98,14 @@ def reader_shape(ctx, rule):
 
     # enc = sign-preserving widening of B64[c as usize]
     encs = q.def_shapes(body, enc, roles)
-    BYTE = "try(Iterator::next(var:Bytes))"
-    ok_enc = [s for s, _, _ in encs if s in ("from<i64>(vlq::B64[cast<usize>(%s)])" % BYTE, "cast<i64>(vlq::B64[cast<usize>(%s)])" % BYTE, "from<i64>(vlq::B64[from<usize>(%s)])" % BYTE)]
+    ok_enc = []
+    for BYTE in ("try(Iterator::next(var:Bytes))", "try(Iterator::next(var:Iter<u8>))"):  # `segment.bytes()` / `segment.as_bytes()`
+        ok_enc += [s for s, _, _ in encs if s in ("from<i64>(vlq::B64[cast<usize>(%s)])" % BYTE, "cast<i64>(vlq::B64[cast<usize>(%s)])" % BYTE, "from<i64>(vlq::B64[from<usize>(%s)])" % BYTE)]
     ctx.check(len(encs) == 1 and len(ok_enc) == 1, rule, fn, "enc:table-load",
               "the digit is loaded from the reverse table B64 at the input byte (widened to usize, never narrowed) and widened sign-preservingly to i64",
               detail=str([s for s, _, _ in encs]))
-    its = [sh for l in range(len(body.locals)) for sh, _, _ in q.def_shapes(body, l, {}) if sh in ("IntoIterator::into_iter(str::bytes(arg1))", "str::bytes(arg1)")]
-    ctx.check("IntoIterator::into_iter(str::bytes(arg1))" in its, rule, fn, "enc:every-byte",
+    its = [sh for l in range(len(body.locals)) for sh, _, _ in q.def_shapes(body, l, {}) if sh in ("IntoIterator::into_iter(str::bytes(arg1))", "str::bytes(arg1)", "IntoIterator::into_iter(str::as_bytes(arg1))", "slice::iter(str::as_bytes(arg1))")]
+    ctx.check("IntoIterator::into_iter(str::bytes(arg1))" in its or "IntoIterator::into_iter(str::as_bytes(arg1))" in its or "slice::iter(str::as_bytes(arg1))" in its, rule, fn, "enc:every-byte",
               "the digits are the bytes of the segment, one table load per byte (a multi-byte character is a sequence of foreign bytes, not a truncated code point)", detail=str(its))
 
     # accumulator definitions
@@ -225,7 +231,7 @@ def reader_shape(ctx, rule):
     for bi, si in allv.get("VlqLeftover", []) + allv.get("VlqNoValues", []):
         ctx.check(bi not in in_loop, rule, fn, "end-of-input-errors", "leftover / no-values are decided after the whole segment was read", ctx.site(body, bi, si))
     for bi, si in allv.get("InvalidBase64", []):
-        ctx.check(has_fact(body, bi, roles, ("Lt", "enc", "0"), ("Le", "enc", "-1")), rule, fn, "InvalidBase64:only-negative", "InvalidBase64 is produced only for the negative sentinel", ctx.site(body, bi, si))
+        ctx.check(has_fact(body, bi, roles, ("Lt", "enc", "0"), ("Le", "enc", "-1"), ("Lt", "vlq::B64[*]", "0"), ("Le", "vlq::B64[*]", "-1")), rule, fn, "InvalidBase64:only-negative", "InvalidBase64 is produced only for the negative sentinel", ctx.site(body, bi, si))
     err_blocks = set(result_blocks(body, "Err")) | set(residual_blocks(body))
     ctx.check(len(err_blocks) == 4, rule, fn, "rejections:count", "the reader has exactly four error exits (foreign byte, shift overflow, leftover, no values)", detail=str(sorted(err_blocks)))
     # (d) sentinel discipline
@@ -270,7 +276,8 @@ def sentinel(ctx, rule, body, roles, enc):
                 uses.append((bi, si, q.shape(e, roles)))
     ctx.check(bool(uses), rule, fn, "sentinel:uses", "arithmetic uses of the table value were found (non-vacuous)")
     for bi, si, sh in uses:
-        ok = has_fact(body, bi, roles, ("Le", "0", "enc"), ("Lt", "-1", "enc"), ("Ne", "-1", "enc"))
+        # (the test may be made on the table entry before it is widened: the widening preserves the sign)
+        ok = has_fact(body, bi, roles, *[(op, c, x) for x in ("enc", "vlq::B64[*]") for op, c in (("Le", "0"), ("Lt", "-1"), ("Ne", "-1"))])
         ctx.check(ok, rule, fn, "sentinel:%s" % sh,
                   "the value loaded from the reverse table is tested for the negative (foreign byte) sentinel before it is used in arithmetic",
                   ctx.site(body, bi, si), detail="use %s is not dominated by a non-negativity test of the table value" % sh)
@@ -282,6 +289,9 @@ def sentinel(ctx, rule, body, roles, enc):
             continue
         e = body.expr_of_operand(t["discr"])
         sh = q.shape(e, roles)
+        if q.wild("*vlq::B64[*]*", sh) and "enc" not in sh:
+            import re as _re
+            sh = _re.sub(r"vlq::B64\[[^\]]*\]", "enc", sh)
         if sh in ("Lt(enc,0)", "Le(0,enc)", "Lt(-1,enc)", "Le(enc,-1)", "Eq(-1,enc)", "Ne(-1,enc)"):
             neg_when_true = sh in ("Lt(enc,0)", "Le(enc,-1)", "Eq(-1,enc)")
             for v, tb in t["arms"]:
